@@ -110,8 +110,14 @@ def gen_ops(spec, rng, codec, fs, s, m, oid):
         paths = [p for p in paths if _leaf_fd(desc, p)[1].type != FD.TYPE_MESSAGE or False]
     chosen = [p for p in paths if rng.random() < 0.6] or paths[:1]
     kw = {}
+    used_oneofs = set()
     for p in chosen:
         pd, fd = _leaf_fd(desc, p)
+        oo = fd.containing_oneof
+        if oo is not None and not (len(oo.fields) == 1 and oo.name.startswith("_")):
+            if (pd.full_name, oo.name) in used_oneofs:
+                continue          # two members of one oneof in a single call have no single equivalent request
+            used_oneofs.add((pd.full_name, oo.name))
         v = rand_leaf_value(rng, pd, fd)
         if v is None:
             continue
